@@ -1,0 +1,845 @@
+//! Verification hooks. Only compiled with `--cfg sas_lexer_verif`.
+//!
+//! Nothing in this file is part of the regular crate: it gives an external
+//! test harness access to the internal state of the lexer (iteration budget,
+//! end-of-input snapshot, per-iteration trace) and allows it to drive the
+//! private `Lexer` primitives one by one (`lexer_script`).
+#![allow(
+    clippy::all,
+    clippy::pedantic,
+    unreachable_pub,
+    missing_docs,
+    dead_code
+)]
+
+use std::cell::RefCell;
+use std::fmt::Write as _;
+use std::panic::{catch_unwind, AssertUnwindSafe};
+use std::rc::Rc;
+
+use strum::IntoEnumIterator;
+
+use super::buffer::{LineIdx, Payload, TokenizedBuffer};
+use super::channel::TokenChannel;
+use super::error::{ErrorInfo, ErrorKind};
+use super::lexer_mode::{LexerMode, MacroArgNameValueFlags, MacroEvalExprFlags};
+use super::text::{ByteOffset, CharOffset};
+use super::token_type::TokenType;
+use super::{LexResult, Lexer};
+
+// ---------------------------------------------------------------------------
+// Public data types
+// ---------------------------------------------------------------------------
+
+#[derive(Debug, Default, Clone)]
+pub struct VerifOut {
+    /// Number of main loop iterations started (including the one that
+    /// tripped the budget, if any)
+    pub iters: u64,
+    pub budget_exceeded: bool,
+    pub snapshot: Option<Snapshot>,
+    pub trace: Vec<IterDigest>,
+}
+
+#[derive(Debug, Clone)]
+pub struct Snapshot {
+    pub modes: Vec<String>,
+    pub nesting: u32,
+    pub pending: Vec<bool>,
+    pub checkpoint: bool,
+    pub last_default: Option<u16>,
+    pub last: Option<u16>,
+}
+
+#[derive(Debug, Clone)]
+pub struct IterDigest {
+    pub rem: u32,
+    pub depth: usize,
+    pub top: String,
+    pub toks: u32,
+    pub errs: usize,
+    pub cp: bool,
+}
+
+/// Control block stored in the `Lexer`
+#[derive(Debug)]
+pub struct VerifCtl {
+    pub budget: u64,
+    pub trace_cap: usize,
+    pub out: Rc<RefCell<VerifOut>>,
+}
+
+// ---------------------------------------------------------------------------
+// u16/u8 -> enum conversions
+// ---------------------------------------------------------------------------
+
+impl TokenType {
+    #[must_use]
+    pub fn verif_from_u16(v: u16) -> Option<TokenType> {
+        // Discriminants are contiguous from 0, but do not rely on it
+        TokenType::iter()
+            .nth(v as usize)
+            .filter(|t| *t as u16 == v)
+            .or_else(|| TokenType::iter().find(|t| *t as u16 == v))
+    }
+}
+
+impl TokenChannel {
+    #[must_use]
+    pub fn verif_from_u8(v: u8) -> Option<TokenChannel> {
+        TokenChannel::iter().find(|c| *c as u8 == v)
+    }
+}
+
+impl ErrorKind {
+    #[must_use]
+    pub fn verif_from_u16(v: u16) -> Option<ErrorKind> {
+        ErrorKind::iter().find(|k| *k as u16 == v)
+    }
+}
+
+// ---------------------------------------------------------------------------
+// Unicode predicates through this crate's dependency versions
+// ---------------------------------------------------------------------------
+
+#[must_use]
+pub fn verif_is_xid_start(c: char) -> bool {
+    unicode_ident::is_xid_start(c)
+}
+
+#[must_use]
+pub fn verif_is_xid_continue(c: char) -> bool {
+    unicode_ident::is_xid_continue(c)
+}
+
+// ---------------------------------------------------------------------------
+// Mode encoding
+// ---------------------------------------------------------------------------
+
+pub(super) fn encode_mode(m: &LexerMode) -> String {
+    match m {
+        LexerMode::Default => "Default".to_string(),
+        LexerMode::StringExpr { allow_stat } => format!("StringExpr:{}", u8::from(*allow_stat)),
+        LexerMode::MakeCheckpoint => "MakeCheckpoint".to_string(),
+        LexerMode::WsOrCStyleCommentOnly => "WsOrCStyleCommentOnly".to_string(),
+        LexerMode::ExpectSymbol(t, c) => format!("ExpectSymbol:{}:{}", *t as u16, *c as u8),
+        LexerMode::ExpectSemiOrEOF => "ExpectSemiOrEOF".to_string(),
+        LexerMode::MaybeMacroCallArgsOrLabel { check_macro_label } => {
+            format!("MaybeMacroCallArgsOrLabel:{}", u8::from(*check_macro_label))
+        }
+        LexerMode::MaybeMacroCallArgAssign { flags } => {
+            format!("MaybeMacroCallArgAssign:{}", flags.bits())
+        }
+        LexerMode::MacroCallArgOrValue { flags } => {
+            format!("MacroCallArgOrValue:{}", flags.bits())
+        }
+        LexerMode::MaybeMacroDefArgs => "MaybeMacroDefArgs".to_string(),
+        LexerMode::MacroDefArg => "MacroDefArg".to_string(),
+        LexerMode::MacroDefNextArgOrDefaultValue => "MacroDefNextArgOrDefaultValue".to_string(),
+        LexerMode::MacroDefName => "MacroDefName".to_string(),
+        LexerMode::MacroCallValue { flags, pnl } => {
+            format!("MacroCallValue:{}:{}", flags.bits(), pnl)
+        }
+        LexerMode::MaybeTailMacroArgValue => "MaybeTailMacroArgValue".to_string(),
+        LexerMode::MacroStrQuotedExpr { mask_macro, pnl } => {
+            format!("MacroStrQuotedExpr:{}:{}", u8::from(*mask_macro), pnl)
+        }
+        LexerMode::MacroEval {
+            macro_eval_flags,
+            pnl,
+        } => format!("MacroEval:{}:{}", macro_eval_flags.bits(), pnl),
+        LexerMode::MacroDo => "MacroDo".to_string(),
+        LexerMode::MacroLocalGlobal { is_local } => {
+            format!("MacroLocalGlobal:{}", u8::from(*is_local))
+        }
+        LexerMode::MacroNameExpr(found, err) => format!(
+            "MacroNameExpr:{}:{}",
+            u8::from(*found),
+            err.map_or(0, |e| e as u16)
+        ),
+        LexerMode::MacroSemiTerminatedTextExpr => "MacroSemiTerminatedTextExpr".to_string(),
+        LexerMode::MacroStatOptionsTextExpr => "MacroStatOptionsTextExpr".to_string(),
+    }
+}
+
+fn parse_bool01(s: &str) -> Option<bool> {
+    match s {
+        "0" => Some(false),
+        "1" => Some(true),
+        _ => None,
+    }
+}
+
+pub(super) fn decode_mode(s: &str) -> Option<LexerMode> {
+    let mut it = s.split(':');
+    let name = it.next()?;
+    let a = it.next();
+    let b = it.next();
+    if it.next().is_some() {
+        return None;
+    }
+
+    // Helper closures enforcing the exact arity
+    let none = |m: LexerMode| if a.is_none() { Some(m) } else { None };
+    let one = || if b.is_none() { a } else { None };
+
+    match name {
+        "Default" => none(LexerMode::Default),
+        "StringExpr" => Some(LexerMode::StringExpr {
+            allow_stat: parse_bool01(one()?)?,
+        }),
+        "MakeCheckpoint" => none(LexerMode::MakeCheckpoint),
+        "WsOrCStyleCommentOnly" => none(LexerMode::WsOrCStyleCommentOnly),
+        "ExpectSymbol" => Some(LexerMode::ExpectSymbol(
+            TokenType::verif_from_u16(a?.parse().ok()?)?,
+            TokenChannel::verif_from_u8(b?.parse().ok()?)?,
+        )),
+        "ExpectSemiOrEOF" => none(LexerMode::ExpectSemiOrEOF),
+        "MaybeMacroCallArgsOrLabel" => Some(LexerMode::MaybeMacroCallArgsOrLabel {
+            check_macro_label: parse_bool01(one()?)?,
+        }),
+        "MaybeMacroCallArgAssign" => Some(LexerMode::MaybeMacroCallArgAssign {
+            flags: MacroArgNameValueFlags::from_bits(one()?.parse().ok()?),
+        }),
+        "MacroCallArgOrValue" => Some(LexerMode::MacroCallArgOrValue {
+            flags: MacroArgNameValueFlags::from_bits(one()?.parse().ok()?),
+        }),
+        "MaybeMacroDefArgs" => none(LexerMode::MaybeMacroDefArgs),
+        "MacroDefArg" => none(LexerMode::MacroDefArg),
+        "MacroDefNextArgOrDefaultValue" => none(LexerMode::MacroDefNextArgOrDefaultValue),
+        "MacroDefName" => none(LexerMode::MacroDefName),
+        "MacroCallValue" => Some(LexerMode::MacroCallValue {
+            flags: MacroArgNameValueFlags::from_bits(a?.parse().ok()?),
+            pnl: b?.parse().ok()?,
+        }),
+        "MaybeTailMacroArgValue" => none(LexerMode::MaybeTailMacroArgValue),
+        "MacroStrQuotedExpr" => Some(LexerMode::MacroStrQuotedExpr {
+            mask_macro: parse_bool01(a?)?,
+            pnl: b?.parse().ok()?,
+        }),
+        "MacroEval" => Some(LexerMode::MacroEval {
+            macro_eval_flags: MacroEvalExprFlags::from_bits(a?.parse().ok()?),
+            pnl: b?.parse().ok()?,
+        }),
+        "MacroDo" => none(LexerMode::MacroDo),
+        "MacroLocalGlobal" => Some(LexerMode::MacroLocalGlobal {
+            is_local: parse_bool01(one()?)?,
+        }),
+        "MacroNameExpr" => {
+            let found = parse_bool01(a?)?;
+            let kind: u16 = b?.parse().ok()?;
+            let err = if kind == 0 {
+                None
+            } else {
+                Some(ErrorKind::verif_from_u16(kind)?)
+            };
+            Some(LexerMode::MacroNameExpr(found, err))
+        }
+        "MacroSemiTerminatedTextExpr" => none(LexerMode::MacroSemiTerminatedTextExpr),
+        "MacroStatOptionsTextExpr" => none(LexerMode::MacroStatOptionsTextExpr),
+        _ => None,
+    }
+}
+
+/// `decode_mode(s).map(encode_mode)`: lets the harness check the round trip
+/// without exposing the private `LexerMode` type.
+#[must_use]
+pub fn verif_mode_roundtrip(s: &str) -> Option<String> {
+    decode_mode(s).map(|m| encode_mode(&m))
+}
+
+// ---------------------------------------------------------------------------
+// Hooks called from `Lexer::lex`
+// ---------------------------------------------------------------------------
+
+/// Called at the top of every main loop iteration, before `lex_token`.
+/// Returns `true` if the loop must be left (budget exceeded).
+#[inline]
+pub(super) fn on_iter(lexer: &mut Lexer<'_>) -> bool {
+    lexer.verif_iters += 1;
+
+    let Some(ctl) = lexer.verif.as_ref() else {
+        return false;
+    };
+
+    let mut out = ctl.out.borrow_mut();
+    out.iters = lexer.verif_iters;
+
+    if lexer.verif_iters > ctl.budget {
+        out.budget_exceeded = true;
+        return true;
+    }
+
+    if out.trace.len() < ctl.trace_cap {
+        out.trace.push(IterDigest {
+            rem: lexer.cursor.remaining_len(),
+            depth: lexer.mode_stack.len(),
+            top: lexer
+                .mode_stack
+                .last()
+                .map_or_else(|| "-".to_string(), encode_mode),
+            toks: lexer.buffer.token_count(),
+            errs: lexer.errors.len(),
+            cp: lexer.checkpoint.is_some(),
+        });
+    }
+
+    false
+}
+
+/// Called right after the main loop, before `finalize_lexing`.
+pub(super) fn on_end(lexer: &mut Lexer<'_>) {
+    let Some(ctl) = lexer.verif.as_ref() else {
+        return;
+    };
+
+    let mut out = ctl.out.borrow_mut();
+    out.iters = lexer.verif_iters;
+    out.snapshot = Some(Snapshot {
+        modes: lexer.mode_stack.iter().map(encode_mode).collect(),
+        nesting: lexer.macro_nesting_level,
+        pending: lexer.pending_stat_stack.iter().collect(),
+        checkpoint: lexer.checkpoint.is_some(),
+        last_default: lexer
+            .buffer
+            .last_token_info_on_default_channel()
+            .map(|t| t.token_type as u16),
+        last: lexer.buffer.last_token_info().map(|t| t.token_type as u16),
+    });
+}
+
+/// Lex a whole program with the iteration budget, returning the regular
+/// result plus the verification side channel.
+///
+/// # Errors
+///
+/// `ErrorKind::FileTooLarge` as `lex_program`.
+pub fn lex_program_verif(
+    src: &str,
+    budget: u64,
+    trace_cap: usize,
+) -> Result<(LexResult, VerifOut), ErrorKind> {
+    let mut lexer = Lexer::new(src, None, None)?;
+    let out = Rc::new(RefCell::new(VerifOut::default()));
+    lexer.verif = Some(VerifCtl {
+        budget,
+        trace_cap,
+        out: Rc::clone(&out),
+    });
+
+    let res = lexer.lex();
+    let out = std::mem::take(&mut *out.borrow_mut());
+
+    Ok((res, out))
+}
+
+// ---------------------------------------------------------------------------
+// Lexer script interpreter
+// ---------------------------------------------------------------------------
+
+/// A script op in its textual form, e.g. `em,0,4,0,0,0`
+pub type ScriptOp = String;
+
+#[derive(Debug)]
+pub enum ScriptOutcome {
+    Ok,
+    /// Source is larger than 4GB
+    TooLarge,
+    /// An op could not be parsed; nothing was executed
+    BadInput,
+    /// An op panicked; holds the panic message
+    Panic(String),
+}
+
+#[derive(Debug)]
+pub struct ScriptResult {
+    pub outcome: ScriptOutcome,
+    /// One `<tag>=<value>` per executed op
+    pub obs: Vec<String>,
+    /// Final state. `None` unless `outcome` is `Ok`
+    pub state: Option<ScriptState>,
+}
+
+#[derive(Debug)]
+pub struct ScriptState {
+    /// `buffer.into_detached(src)`
+    pub buffer: TokenizedBuffer,
+    pub errors: Vec<ErrorInfo>,
+    /// Mode stack, bottom first
+    pub modes: Vec<String>,
+    pub checkpoint: bool,
+    /// Pending stat stack, oldest first
+    pub pending: Vec<bool>,
+    pub cur_token_byte: u32,
+    pub cur_token_start: u32,
+    pub cur_token_line: u32,
+}
+
+#[derive(Debug)]
+enum Op {
+    Pk,
+    Pn,
+    Ad,
+    Ab(u32),
+    Ec(char),
+    Ew(u8),
+    La(usize),
+    Rl,
+    Co,
+    Bo,
+    St,
+    Al,
+    Mk,
+    Em(TokenChannel, TokenType, Payload),
+    Ek(TokenChannel, TokenType, Payload),
+    Ul(TokenChannel, TokenType, Payload),
+    Ee(ErrorKind),
+    Pe(ErrorKind),
+    Ep,
+    Pm(LexerMode),
+    Po,
+    Md,
+    Cp,
+    Cc,
+    Rb,
+    Hc,
+    Pp(bool),
+    Pq,
+    Ps,
+    Sp(bool),
+    Sl(u32, Option<u32>),
+    As(String),
+    Ns,
+    Lt,
+    Ld,
+    Pt,
+    Fz,
+    Lx,
+    Is(u32),
+}
+
+fn unhex(s: &str) -> Option<Vec<u8>> {
+    let b = s.as_bytes();
+    if b.len() % 2 != 0 {
+        return None;
+    }
+    let nib = |c: u8| match c {
+        b'0'..=b'9' => Some(c - b'0'),
+        b'a'..=b'f' => Some(c - b'a' + 10),
+        b'A'..=b'F' => Some(c - b'A' + 10),
+        _ => None,
+    };
+    let mut out = Vec::with_capacity(b.len() / 2);
+    for p in b.chunks(2) {
+        out.push(nib(*p.first()?)? << 4 | nib(*p.get(1)?)?);
+    }
+    Some(out)
+}
+
+fn hex(s: &str) -> String {
+    if s.is_empty() {
+        return "-".to_string();
+    }
+    let mut out = String::with_capacity(s.len() * 2);
+    for b in s.bytes() {
+        let _ = write!(out, "{b:02x}");
+    }
+    out
+}
+
+fn parse_payload(tag: &str, a: &str, b: &str) -> Option<Payload> {
+    let pa: u64 = a.parse().ok()?;
+    let pb: u64 = b.parse().ok()?;
+    match tag {
+        "0" => Some(Payload::None),
+        "1" => Some(Payload::Integer(pa)),
+        "2" => Some(Payload::Float(f64::from_bits(pa))),
+        "3" => Some(Payload::StringLiteral(
+            u32::try_from(pa).ok()?,
+            u32::try_from(pb).ok()?,
+        )),
+        _ => None,
+    }
+}
+
+fn parse_tok_args(args: &[&str]) -> Option<(TokenChannel, TokenType, Payload)> {
+    let [chan, typ, ptag, pa, pb] = args else {
+        return None;
+    };
+    Some((
+        TokenChannel::verif_from_u8(chan.parse().ok()?)?,
+        TokenType::verif_from_u16(typ.parse().ok()?)?,
+        parse_payload(ptag, pa, pb)?,
+    ))
+}
+
+fn parse_op(s: &str) -> Option<Op> {
+    let mut it = s.split(',');
+    let tag = it.next()?;
+    let args: Vec<&str> = it.collect();
+
+    let no_args = |op: Op| if args.is_empty() { Some(op) } else { None };
+    let one_arg = || match args.as_slice() {
+        [a] => Some(*a),
+        _ => None,
+    };
+
+    match tag {
+        "pk" => no_args(Op::Pk),
+        "pn" => no_args(Op::Pn),
+        "ad" => no_args(Op::Ad),
+        "ab" => Some(Op::Ab(one_arg()?.parse().ok()?)),
+        "ec" => Some(Op::Ec(char::from_u32(one_arg()?.parse().ok()?)?)),
+        "ew" => {
+            let k: u8 = one_arg()?.parse().ok()?;
+            if k <= 5 {
+                Some(Op::Ew(k))
+            } else {
+                None
+            }
+        }
+        "la" => Some(Op::La(one_arg()?.parse().ok()?)),
+        "rl" => no_args(Op::Rl),
+        "co" => no_args(Op::Co),
+        "bo" => no_args(Op::Bo),
+        "st" => no_args(Op::St),
+        "al" => no_args(Op::Al),
+        "mk" => no_args(Op::Mk),
+        "em" => parse_tok_args(&args).map(|(c, t, p)| Op::Em(c, t, p)),
+        "ek" => parse_tok_args(&args).map(|(c, t, p)| Op::Ek(c, t, p)),
+        "ul" => parse_tok_args(&args).map(|(c, t, p)| Op::Ul(c, t, p)),
+        "ee" => Some(Op::Ee(ErrorKind::verif_from_u16(
+            one_arg()?.parse().ok()?,
+        )?)),
+        "pe" => Some(Op::Pe(ErrorKind::verif_from_u16(
+            one_arg()?.parse().ok()?,
+        )?)),
+        "ep" => no_args(Op::Ep),
+        "pm" => Some(Op::Pm(decode_mode(one_arg()?)?)),
+        "po" => no_args(Op::Po),
+        "md" => no_args(Op::Md),
+        "cp" => no_args(Op::Cp),
+        "cc" => no_args(Op::Cc),
+        "rb" => no_args(Op::Rb),
+        "hc" => no_args(Op::Hc),
+        "pp" => Some(Op::Pp(parse_bool01(one_arg()?)?)),
+        "pq" => no_args(Op::Pq),
+        "ps" => no_args(Op::Ps),
+        "sp" => Some(Op::Sp(parse_bool01(one_arg()?)?)),
+        "sl" => match args.as_slice() {
+            [a, b] => {
+                let start: u32 = a.parse().ok()?;
+                let end = if *b == "-1" {
+                    None
+                } else {
+                    Some(b.parse::<u32>().ok()?)
+                };
+                Some(Op::Sl(start, end))
+            }
+            _ => None,
+        },
+        "as" => {
+            let a = one_arg()?;
+            let bytes = if a == "-" { Vec::new() } else { unhex(a)? };
+            Some(Op::As(String::from_utf8(bytes).ok()?))
+        }
+        "ns" => no_args(Op::Ns),
+        "lt" => no_args(Op::Lt),
+        "ld" => no_args(Op::Ld),
+        "pt" => no_args(Op::Pt),
+        "fz" => no_args(Op::Fz),
+        "lx" => no_args(Op::Lx),
+        "is" => Some(Op::Is(one_arg()?.parse().ok()?)),
+        _ => None,
+    }
+}
+
+/// Interpreter state that lives outside the `Lexer`
+struct Interp {
+    mark: Option<(ByteOffset, CharOffset, LineIdx)>,
+    prepared: Option<ErrorInfo>,
+}
+
+fn opt_char(c: Option<char>) -> i64 {
+    c.map_or(-1, |c| i64::from(u32::from(c)))
+}
+
+fn exec_op(lexer: &mut Lexer<'_>, st: &mut Interp, op: Op) -> String {
+    match op {
+        Op::Pk => format!("pk={}", opt_char(lexer.cursor.peek())),
+        Op::Pn => format!("pn={}", u32::from(lexer.cursor.peek_next())),
+        Op::Ad => format!("ad={}", opt_char(lexer.cursor.advance())),
+        Op::Ab(n) => {
+            lexer.cursor.advance_by(n);
+            "ab=0".to_string()
+        }
+        Op::Ec(c) => format!("ec={}", u8::from(lexer.cursor.eat_char(c))),
+        Op::Ew(k) => {
+            match k {
+                0 => lexer.cursor.eat_while(|c| c == '&'),
+                1 => lexer.cursor.eat_while(char::is_whitespace),
+                2 => lexer.cursor.eat_while(|c| c.is_ascii_digit()),
+                3 => lexer.cursor.eat_while(unicode_ident::is_xid_continue),
+                4 => lexer.cursor.eat_while(|c| c != '\n'),
+                _ => lexer.cursor.eat_while(|c| c.is_ascii_hexdigit()),
+            }
+            "ew=0".to_string()
+        }
+        Op::La(n) => {
+            let v: Vec<String> = lexer
+                .cursor
+                .chars()
+                .take(n)
+                .map(|c| u32::from(c).to_string())
+                .collect();
+            if v.is_empty() {
+                "la=-".to_string()
+            } else {
+                format!("la={}", v.join("."))
+            }
+        }
+        Op::Rl => format!("rl={}", lexer.cursor.remaining_len()),
+        Op::Co => format!("co={}", lexer.cursor.char_offset()),
+        Op::Bo => format!("bo={}", lexer.cur_byte_offset().get()),
+        Op::St => {
+            lexer.start_token();
+            "st=0".to_string()
+        }
+        Op::Al => format!("al={}", lexer.add_line().verif_get()),
+        Op::Mk => {
+            let mark = lexer.mark_token_start();
+            st.mark = Some(mark);
+            format!(
+                "mk={}.{}.{}",
+                mark.0.get(),
+                mark.1.get(),
+                mark.2.verif_get()
+            )
+        }
+        Op::Em(c, t, p) => {
+            lexer.emit_token(c, t, p);
+            "em=0".to_string()
+        }
+        Op::Ek(c, t, p) => match st.mark {
+            Some(mark) => {
+                lexer.emit_token_at_mark(c, t, p, mark);
+                "ek=0".to_string()
+            }
+            None => "ek=nomark".to_string(),
+        },
+        Op::Ul(c, t, p) => {
+            lexer.update_last_token(c, t, p);
+            "ul=0".to_string()
+        }
+        Op::Ee(k) => {
+            lexer.emit_error(k);
+            "ee=0".to_string()
+        }
+        Op::Pe(k) => {
+            st.prepared = Some(lexer.prep_error_info_at_cur_offset(k));
+            "pe=0".to_string()
+        }
+        Op::Ep => match st.prepared {
+            Some(info) => {
+                lexer.emit_error_info(info);
+                "ep=1".to_string()
+            }
+            None => "ep=0".to_string(),
+        },
+        Op::Pm(m) => {
+            lexer.push_mode(m);
+            "pm=0".to_string()
+        }
+        Op::Po => {
+            lexer.pop_mode();
+            "po=0".to_string()
+        }
+        Op::Md => format!("md={}", encode_mode(&lexer.mode())),
+        Op::Cp => {
+            lexer.checkpoint();
+            "cp=0".to_string()
+        }
+        Op::Cc => {
+            lexer.clear_checkpoint();
+            "cc=0".to_string()
+        }
+        Op::Rb => {
+            lexer.rollback();
+            "rb=0".to_string()
+        }
+        Op::Hc => format!("hc={}", u8::from(lexer.checkpoint.is_some())),
+        Op::Pp(v) => {
+            lexer.push_pending_stat(v);
+            "pp=0".to_string()
+        }
+        Op::Pq => {
+            lexer.pop_pending_stat();
+            "pq=0".to_string()
+        }
+        Op::Ps => format!("ps={}", u8::from(lexer.pending_stat())),
+        Op::Sp(v) => {
+            lexer.set_pending_stat(v);
+            "sp=0".to_string()
+        }
+        Op::Sl(start, end) => {
+            let (a, b) =
+                lexer.add_string_literal_from_src(ByteOffset::new(start), end.map(ByteOffset::new));
+            format!("sl={a}.{b}")
+        }
+        Op::As(s) => {
+            let (a, b) = lexer.buffer.add_string_literal(s);
+            format!("as={a}.{b}")
+        }
+        Op::Ns => format!("ns={}", lexer.buffer.next_string_literal_start()),
+        Op::Lt => format!(
+            "lt={}",
+            lexer
+                .buffer
+                .last_token_info()
+                .map_or(-1, |t| i32::from(t.token_type as u16))
+        ),
+        Op::Ld => format!(
+            "ld={}",
+            lexer
+                .buffer
+                .last_token_info_on_default_channel()
+                .map_or(-1, |t| i32::from(t.token_type as u16))
+        ),
+        Op::Pt => format!("pt={}", hex(lexer.pending_token_text())),
+        Op::Fz => {
+            lexer.finalize_lexing();
+            "fz=0".to_string()
+        }
+        Op::Lx => {
+            if let Some(c) = lexer.cursor.peek() {
+                lexer.lex_token(c);
+                "lx=1".to_string()
+            } else {
+                "lx=0".to_string()
+            }
+        }
+        Op::Is(at) => exec_insert(lexer, at),
+    }
+}
+
+#[cfg(feature = "macro_sep")]
+fn exec_insert(lexer: &mut Lexer<'_>, at: u32) -> String {
+    use super::buffer::TokenIdx;
+
+    let (byte, start, line) = lexer
+        .buffer
+        .iter_token_infos()
+        .nth(at as usize)
+        .map_or(
+            (
+                lexer.cur_token_byte_offset,
+                lexer.cur_token_start,
+                lexer.cur_token_line,
+            ),
+            |(_, t)| (t.byte_offset, t.start, t.line),
+        );
+
+    lexer.buffer.insert_token(
+        TokenIdx::verif_new(at),
+        TokenChannel::DEFAULT,
+        TokenType::MacroSep,
+        byte,
+        start,
+        line,
+        Payload::None,
+    );
+
+    "is=0".to_string()
+}
+
+#[cfg(not(feature = "macro_sep"))]
+fn exec_insert(_lexer: &mut Lexer<'_>, _at: u32) -> String {
+    "is=nofeature".to_string()
+}
+
+fn panic_message(payload: &(dyn std::any::Any + Send)) -> String {
+    if let Some(s) = payload.downcast_ref::<&str>() {
+        (*s).to_string()
+    } else if let Some(s) = payload.downcast_ref::<String>() {
+        s.clone()
+    } else {
+        "unknown panic payload".to_string()
+    }
+}
+
+/// Run a sequence of primitive ops against a fresh `Lexer::new(src, None, None)`.
+#[must_use]
+pub fn lexer_script(src: &str, ops: &[ScriptOp]) -> ScriptResult {
+    // Parse everything up-front: a malformed script executes nothing
+    let mut parsed = Vec::with_capacity(ops.len());
+    for op in ops {
+        match parse_op(op) {
+            Some(op) => parsed.push(op),
+            None => {
+                return ScriptResult {
+                    outcome: ScriptOutcome::BadInput,
+                    obs: vec![format!("badop={op}")],
+                    state: None,
+                }
+            }
+        }
+    }
+
+    let Ok(mut lexer) = Lexer::new(src, None, None) else {
+        return ScriptResult {
+            outcome: ScriptOutcome::TooLarge,
+            obs: Vec::new(),
+            state: None,
+        };
+    };
+
+    let mut obs = Vec::with_capacity(parsed.len());
+    let mut st = Interp {
+        mark: None,
+        prepared: None,
+    };
+
+    let run = catch_unwind(AssertUnwindSafe(|| {
+        for op in parsed {
+            let o = exec_op(&mut lexer, &mut st, op);
+            obs.push(o);
+        }
+    }));
+
+    if let Err(payload) = run {
+        return ScriptResult {
+            outcome: ScriptOutcome::Panic(panic_message(payload.as_ref())),
+            obs,
+            state: None,
+        };
+    }
+
+    // `into_detached` itself is part of what is observed, so guard it too
+    let fin = catch_unwind(AssertUnwindSafe(|| {
+        let modes = lexer.mode_stack.iter().map(encode_mode).collect();
+        let pending = lexer.pending_stat_stack.iter().collect();
+        ScriptState {
+            modes,
+            pending,
+            checkpoint: lexer.checkpoint.is_some(),
+            cur_token_byte: lexer.cur_token_byte_offset.get(),
+            cur_token_start: lexer.cur_token_start.get(),
+            cur_token_line: lexer.cur_token_line.verif_get(),
+            errors: lexer.errors,
+            buffer: lexer.buffer.into_detached(src),
+        }
+    }));
+
+    match fin {
+        Ok(state) => ScriptResult {
+            outcome: ScriptOutcome::Ok,
+            obs,
+            state: Some(state),
+        },
+        Err(payload) => ScriptResult {
+            outcome: ScriptOutcome::Panic(panic_message(payload.as_ref())),
+            obs,
+            state: None,
+        },
+    }
+}
